@@ -35,7 +35,7 @@ type CalBackend struct {
 	HomeSet   string
 	Calendars []caldav.Calendar
 	Objects   map[string][]caldav.CalendarObject // calendar path -> objects
-	FailPath  map[string]int                     // object/calendar path -> HTTP status to fail with
+	FailPath  map[string]int                     // object/calendar path -> HTTP status to fail with (negative: wrapped with %w)
 	FailOp    map[string]error                   // op name -> error
 	PutResult *caldav.CalendarObject             // what PutCalendarObject returns (nil: echo)
 	QueryHook func(path string, q *caldav.CalendarQuery) ([]caldav.CalendarObject, error)
@@ -67,6 +67,10 @@ func (b *CalBackend) opErr(op string) error {
 
 func (b *CalBackend) pathErr(p string) error {
 	if code, ok := b.FailPath[p]; ok {
+		if code < 0 {
+			// a backend that adds context to its errors: the HTTP error is still in the chain
+			return fmt.Errorf("store: %w", webdav.NewHTTPError(-code, fmt.Errorf("scripted failure")))
+		}
 		return webdav.NewHTTPError(code, fmt.Errorf("scripted failure"))
 	}
 	return nil
@@ -282,6 +286,10 @@ func (b *CardBackend) opErr(op string) error {
 
 func (b *CardBackend) pathErr(p string) error {
 	if code, ok := b.FailPath[p]; ok {
+		if code < 0 {
+			// a backend that adds context to its errors: the HTTP error is still in the chain
+			return fmt.Errorf("store: %w", webdav.NewHTTPError(-code, fmt.Errorf("scripted failure")))
+		}
 		return webdav.NewHTTPError(code, fmt.Errorf("scripted failure"))
 	}
 	return nil
